@@ -53,6 +53,8 @@ RULES = [
     {'args': {1: 'x'}}, {'type': 'signal', 'args': {1: 'x', 2: 'x'}}, {'arg_paths': {1: '/a/'}}, {'arg_paths': {1: '/a/b'}},
     {'member': 'M', 'args': {1: 'xy'}}, {'arg_paths': {1: '/a/b/c'}},
     # argument indices with two digits (the specification allows 0-63)
+    # a rule naming a destination matches no broadcast (a broadcast has none)
+    {'type': 'signal', 'destination': ':1.77'}, {'destination': 'org.verif.A', 'member': 'M'}, {'destination': ':1.1'},
     {'args': {10: 'late'}}, {'args': {1: 'x', 12: 'later'}}, {'arg_paths': {11: '/a/'}}, {'args': {63: 'last'}},
 ]
 
